@@ -10,7 +10,11 @@ ROOT = os.path.dirname(os.path.dirname(os.path.abspath(__file__)))
 def main():
     os.makedirs(os.path.join(ROOT, "out"), exist_ok=True)
     os.makedirs(os.path.join(ROOT, "evidence"), exist_ok=True)
-    bad = 0
+    # constant inputs of the model-checking configurations
+    env = dict(os.environ)
+    p = subprocess.run([sys.executable, "-m", "harness.mkmc"], cwd=ROOT, capture_output=True, text=True, env=env)
+    print(p.stdout.strip() or p.stderr[-500:])
+    bad = 0 if p.returncode == 0 else 1
     for f in sorted(glob.glob(os.path.join(ROOT, "spec", "*.tla"))):
         p = subprocess.run(["java", "-cp", "/opt/veriftools/tla/tla2tools.jar:/opt/veriftools/tla/CommunityModules-deps.jar",
                             "tla2sany.SANY", os.path.basename(f)], cwd=os.path.join(ROOT, "spec"),
